@@ -2557,9 +2557,9 @@ def assert_constraints(weights,
   del joint_unimodalities
 
   if weights.shape[1] > 1:
-    lattice_sizes = lattice_sizes + [int(weights.shape[1])]
+    lattice_sizes = list(lattice_sizes) + [int(weights.shape[1])]
     if monotonicities:
-      monotonicities = monotonicities + [0]
+      monotonicities = list(monotonicities) + [0]
   weights = tf.reshape(weights, shape=lattice_sizes)
   asserts = []
 
